@@ -140,3 +140,26 @@ __CPROVER_ensures(OLD(transit_event_p->logger_base->pattern_formatter) != NULL =
 ''')],
     harness='  BWf* s; TE* te; BW_formatter_init(s, te);', dropped=['shared_ptr ownership', 'options as content ids'], trusted=['LoggerManager::for_each_logger applies the lambda to registered loggers until it returns true (unit BW.formatter_share for the lambda)'], min_obligations=6)
 UNITS.append(fi_init)
+
+# ------------------------------------------------------------------------------------------ detail::log_level_to_string
+LLH = 'quill/core/LogLevel.h'
+LL_PRELUDE = r'''
+typedef uint8_t LogLevel;
+typedef size_t StrId;                               /* a description string by content id */
+'''
+ll_to_string = dict(
+    name='LL.to_string', primary='C12', props={'C12', 'C16'}, kind='L',
+    desc='detail::log_level_to_string: the level name / short code handed to the pattern is entry number <level> of the configured table; a level outside the table is an error, never a read past its end',
+    structs=[], prelude=LL_PRELUDE, enforce='log_level_to_string', replace=[],
+    funcs=[dict(src=dict(header=LLH, cls=None, name='log_level_to_string'), src_params=['log_level', 'log_levels_strings', 'log_levels_strings_size'], cfun='log_level_to_string',
+                sig='StrId log_level_to_string(LogLevel log_level, StrId const* log_levels_strings, size_t log_levels_strings_size)', member_fields=[], ret_default='0', exceptions=True, may_throw=[],
+                pre_rules=[(r'auto\s+const\s+log_lvl\s*=', 'uint32_t const log_lvl ='), (r'std::string\s+const\s+error_msg\s*=[^;]*;', ''), (r'throw\s*\(?\s*QuillError\s*\{.*?\}\s*\)?\s*;', 'throw(QuillError{"x"});'),
+                           (r'__builtin_expect\((.*?),\s*[01]\)', r'(\1)', '?')],
+                contract=r'''
+__CPROVER_requires(log_levels_strings_size >= 1 && log_levels_strings_size <= 16 && __CPROVER_is_fresh(log_levels_strings, log_levels_strings_size * sizeof(StrId)) && g_exc == 0)
+__CPROVER_assigns(g_exc)
+__CPROVER_ensures(log_level < log_levels_strings_size ==> (g_exc == 0 && RET == log_levels_strings[log_level])) /*@ C12,C16 "the level name / short code of a statement is the table entry of its own level" */
+__CPROVER_ensures(log_level >= log_levels_strings_size ==> g_exc == EXC_STD) /*@ C12 "a level outside the table is reported as an error (CBMC's bounds checks: the table is never read past its end)" */
+''')],
+    harness='  LogLevel l; StrId const* t; size_t n; log_level_to_string(l, t, n);', dropped=['std::string / string_view as content ids', 'text of the error message'], trusted=[], min_obligations=5)
+UNITS.append(ll_to_string)
